@@ -7,7 +7,8 @@ PID = "C15"
 MODULES = ["Prelude", "C15_Model", "C15_Spec", "C15_Check"]
 PROPS_MODULE = "C15_Properties"
 THEOREMS = ["C15_delete_cluster", "C15_remove_endpoint", "C15_done_is_forever", "C15_removed_never_picked_again",
-            "C15_cut_needs_done_context", "C15_probe_context_parent", "C15_stale_request_forwarded_before_fix"]
+            "C15_cut_needs_done_context", "C15_probe_context_parent", "C15_rejected_object_is_inert",
+            "C15_stale_request_forwarded_before_fix"]
 EVAL = "C15_Check.eval"
 CLAUSES = ["agree", "not_routed", "inflight_cut", "prompt", "probing_stops", "others_unaffected"]
 RULE = ("distinct (pre-history, scenario) pairs with a removal (cluster deleted or endpoint(s) removed) in which at least one request was in "
